@@ -8,7 +8,7 @@ CORRESPONDENCE = "Eval.{force,dynValue,resolveRef,flattenedKeysE} ~ every read A
 RULE = ("reference graphs over n <= 8 settings: self references, references to ancestors and descendants (a nested object "
         "referencing its parent, the parent referencing a child), chains, diamonds, repeated uses in one string, references inside "
         "default/alternative operands and inside reference names; read through every entry point: String getter per setting, Unpack "
-        "(whole config), Has, CountField, Child+Unpack, FlattenedKeys, diff.CompareConfigs. The worker runs each case in a process with "
+        "(whole config), Unpack of one setting into typed fields ([]string, []interface{}, [1]string, time.Duration, int64, *string, string), Has, CountField, Child+Unpack, FlattenedKeys, diff.CompareConfigs. The worker runs each case in a process with "
         "a 64 MiB stack limit and a 4 s watchdog: divergence is a FATAL/timeout result = violation. Oracle: terminates; for settings "
         "in the reference evaluator's scope the value is the substitution, an error iff a reference is re-entered (unless absorbed by "
         "a default). Non-trivial: the graph has a cycle, a diamond or a repeated use. Distinct by (graph class, entry point, outcome).")
@@ -82,6 +82,32 @@ def gen(rng, tier):
         c["expect"] = c["expect"][:len(c["reads"])]
         if not has_ops:
             extra.append({"r": "view"})
+        # the same settings through typed Unpack targets (list, duration, number, pointer): a reference that is not
+        # re-entered may fail to convert, but never with a cyclic-reference error; where the string is known the
+        # one-element list / the string itself is demanded
+        typed, texp = [], []
+        for rd, ex in list(zip(c["reads"], c["expect"])):
+            if rd.get("r") != "get" or ex is None:
+                continue
+            for ty in rng.shuffle(["strings", "ifaces", "duration", "int", "ptrstring", "string", "array1"])[:2]:
+                typed.append({"r": "typed", "name": rd["name"], "ty": ty})
+                if "anyerr" in ex:
+                    # a reference to an object (the ancestor graphs) is an error as a string but a legitimate (empty) list
+                    texp.append(None if kind == "ancestor" and ty in ("strings", "ifaces", "array1") else {"anyerr": True})
+                elif ty == "string":
+                    texp.append({"ok": {"s": ex["ok"]["s"]}})
+                elif ty == "ptrstring":
+                    texp.append({"ok": {"p": {"s": ex["ok"]["s"]}}})
+                elif ty == "strings":
+                    texp.append({"ok": {"sl": [{"s": ex["ok"]["s"]}]}})
+                elif ty == "array1":
+                    texp.append({"ok": {"ar": [{"s": ex["ok"]["s"]}]}})
+                elif ty == "ifaces":
+                    texp.append({"okany": True})
+                else:
+                    texp.append({"notcyclic": True})
+        c["reads"] += typed
+        c["expect"] += texp
         extra += [{"r": "has", "name": rng.pick(names), "idx": -1}, {"r": "count", "name": rng.pick(names)}, {"r": "keys"}, {"r": "diffself"}]
         if kind == "ancestor":
             extra.append({"r": "childview", "name": "o", "idx": -1})
@@ -92,6 +118,14 @@ def gen(rng, tier):
         c["_nt"] = kind != "chain"
         c["_sig"] = "%s|%d" % (kind, len(names))
         yield c
+
+
+def normalize_result(case, res):
+    """typed reads are outside the model: decided by the expectation oracle only"""
+    if isinstance(res, dict) and isinstance(res.get("reads"), list):
+        rs = case.get("reads") or []
+        return dict(res, reads=[{"unmodelled": True} if i < len(rs) and rs[i].get("r") == "typed" else x for i, x in enumerate(res["reads"])])
+    return res
 
 
 def nontrivial(case, impl):
